@@ -183,6 +183,12 @@ def iso_cache():
     return getattr(serdes, "_isoduration", None) or serdes.isoformat
 
 
+def load_cache():
+    """the functools cache behind serdes.strload (the function itself on old trees, _strload now)"""
+    from typelib import serdes
+    return getattr(serdes, "_strload", None) or serdes.strload
+
+
 def iso_body(x):
     from typelib import serdes
     iso_cache().cache_clear()
@@ -193,7 +199,7 @@ def cache_groups():
     from typelib import codecs, graph, serdes
     from typelib.marshals import api as mapi
     from typelib.unmarshals import api as uapi
-    g = {"strload": [serdes.strload], "isoformat": [iso_cache()], "dateparse": [serdes.dateparse],
+    g = {"strload": [load_cache()], "isoformat": [iso_cache()], "dateparse": [serdes.dateparse],
          "factories": [graph.static_order, uapi.unmarshaller, mapi.marshaller, codecs.codec]}
     g = {k: [f for f in fs if hasattr(f, "cache_clear")] for k, fs in g.items()}
     from typelib.py import inspection
@@ -276,12 +282,13 @@ def strload_owned(texts):
     from typelib import serdes
     owned = {}
     for t in texts:
-        before = serdes.strload.cache_info().misses
+        c = load_cache()
+        before = c.cache_info().misses
         try:
-            v = serdes.strload(t)
+            v = c(t)
         except Exception:  # noqa: BLE001
             continue
-        if serdes.strload.cache_info().misses == before:      # a hit: v is the cached object
+        if c.cache_info().misses == before:      # a hit: v is the cached object
             for i in containers(v):
                 owned[i] = t
             # entries created by this probe would be pristine and are harmless
@@ -591,7 +598,7 @@ def world(atom_specs, maxidx):
             W["castl"][a] = res_tree(lambda: list(x))
             W["castd"][a] = res_tree(lambda: dict(x))
             if istext:
-                W["strload"][a] = res_tree(lambda: serdes.strload.__wrapped__(x))
+                W["strload"][a] = res_tree(lambda: load_cache().__wrapped__(x))
                 W["loads"][a] = res_tree(lambda: compat.json.loads(x))
             if W["temporal"][a] or True:
                 W["iso"][a] = res_atom(lambda: iso_body(x))
@@ -627,9 +634,9 @@ def world(atom_specs, maxidx):
     return {"atoms": [o[0] for o in objs], "tables": W, "complete": done == len(objs),
             "index": [keys[json.dumps(["i", i])] for i in range(maxidx)],
             "marker": keys[json.dumps(["i", MARK])], "zz": keys[json.dumps(["s", ZZ])], "none": keys[json.dumps(["n"])],
-            "max": {"load": sd.strload.cache_parameters()["maxsize"], "iso": iso_cache().cache_parameters()["maxsize"],
+            "max": {"load": load_cache().cache_parameters()["maxsize"], "iso": iso_cache().cache_parameters()["maxsize"],
                     "parse": sd.dateparse.cache_parameters()["maxsize"]},
-            "typed": [sd.strload.cache_parameters()["typed"], iso_cache().cache_parameters()["typed"],
+            "typed": [load_cache().cache_parameters()["typed"], iso_cache().cache_parameters()["typed"],
                       sd.dateparse.cache_parameters()["typed"]]}
 
 
